@@ -433,6 +433,8 @@ def cmd_check(args):
             solver_s[k] = solver_s.get(k, 0) + v
         guards.update(xr.get("guards", {}))
         extra_cov = xr.get("coverage", {})
+        # bounded stand-ins are reported under coverage.bounded only: never obligations, never discharged
+        bounded.extend(xr.get("bounded_items", []))
         samples.extend(xr.get("samples", []))
 
     # ---- baseline: only obligations discharged on the unchanged tree may be reported as violated
